@@ -438,13 +438,10 @@ Definition keep (itv start base num : Z) : bool :=
 Lemma construct_byset_eq itv start l base :
   construct_byset itv start l base =
   match filter (keep itv start base) l with [] => Err EValue | c => Ok c end.
-Proof. reflexivity. Qed.
-
-Lemma sort_set_nil_inv l : sort_set l = [] -> l = [].
 Proof.
-  intros H. destruct l as [|x t]; [reflexivity|]. exfalso.
-  assert (Hx : In x (sort_set (x :: t))) by (apply In_sort_set; left; reflexivity).
-  rewrite H in Hx. destruct Hx.
+  unfold construct_byset, keep. cbv zeta.
+  destruct (filter (fun num : Z => (Z.gcd itv base =? 1) || ((num - start) mod Z.gcd itv base =? 0)) l);
+    reflexivity.
 Qed.
 
 Lemma CB_sort i s l b :
@@ -455,37 +452,223 @@ Proof.
   destruct (filter (keep i s b) l) as [|y t] eqn:E.
   - rewrite (proj2 (filter_sort_set_nil _ _) E). reflexivity.
   - destruct (filter (keep i s b) (sort_set l)) as [|y' t'] eqn:E'.
-    + apply filter_sort_set_nil in E'. congruence.
+    + pose proof (proj1 (filter_sort_set_nil _ _) E') as E2. rewrite E in E2. discriminate.
     + cbn [bind]. rewrite <- E', <- E, sort_set_filter. reflexivity.
 Qed.
 
-Definition time_guard (o : option (list Z)) (lvl : bool) (itv start base : Z)
-                      (lvl' : bool) (itv' start' : Z) : Prop :=
-  o = None \/ lvl = false \/
-  (forall l, o = Some l -> forall x, In x l -> keep itv start base x = true) \/
-  (lvl' = true /\ itv' = itv /\ start' = start).
-
-Definition time_built (o : option (list Z)) (lvl : bool) (itv start base : Z) : Prop :=
-  lvl = true -> forall l, o = Some l -> filter (keep itv start base) l <> [].
-
-Lemma K_time o lvl itv start base below' lvl' itv' start' :
-  time_built o lvl itv start base -> time_guard o lvl itv start base lvl' itv' start' ->
-  v_time (from_ent (given_level o lvl itv start base)) below' lvl' itv' start' base =
-  v_time o below' lvl' itv' start' base.
+(* after fix 5b59678 the time-of-day parts are recorded as given (sorted set) *)
+Lemma K_time o below' lvl' itv' start' base :
+  v_time (from_ent (given o sort_set)) below' lvl' itv' start' base = v_time o below' lvl' itv' start' base /\
+  is_none (from_ent (given o sort_set)) = is_none o.
 Proof.
-  intros HB HG. destruct o as [l|]; [|reflexivity]. cbn [given_level].
-  assert (Hplain : v_time (Some (sort_set l)) below' lvl' itv' start' base = v_time (Some l) below' lvl' itv' start' base).
-  { cbn [v_time]. destruct lvl'; [apply CB_sort | rewrite sort_set_idem; reflexivity]. }
-  destruct lvl; [|exact Hplain].
-  specialize (HB eq_refl l eq_refl). rewrite construct_byset_eq.
-  destruct (filter (keep itv start base) l) as [|y t] eqn:E; [congruence|]. cbn [from_ent]. rewrite <- E.
-  destruct HG as [HG|[HG|[HG|(H1 & H2 & H3)]]]; try discriminate.
-  - rewrite (filter_all _ _ (HG l eq_refl)). exact Hplain.
-  - subst. cbn [v_time]. rewrite !construct_byset_eq.
-    set (c := filter (keep itv start base) l) in *.
-    assert (Hall : filter (keep itv start base) (sort_set c) = sort_set c).
-    { apply filter_all. intros x Hx. apply In_sort_set in Hx. unfold c in Hx. apply filter_In in Hx. tauto. }
-    rewrite Hall. destruct (sort_set c) as [|z t'] eqn:Ec.
-    + apply sort_set_nil_inv in Ec. rewrite Ec in E. discriminate.
-    + rewrite <- Ec. rewrite E. cbn [bind]. rewrite <- E. fold c. rewrite sort_set_idem. reflexivity.
+  destruct o as [l|]; [|split; reflexivity]. cbn [given from_ent]. split; [|reflexivity].
+  cbn [v_time]. destruct lvl'; [apply CB_sort | rewrite sort_set_idem; reflexivity].
+Qed.
+
+(* ---- byweekday: plain weekdays are recorded without n, (weekday, n) pairs as they are *)
+
+Definition wd_guard (r : raw) (fr' : Z) : Prop :=
+  r_byweekday r = None \/ (MONTHLY <? r_freq r) = false \/ (MONTHLY <? fr') = true \/
+  (forall l, r_byweekday r = Some l -> forall wn, In wn l -> snd wn = 0).
+
+Lemma map_fst_tag (P : list Z) : map fst (map (fun w => (w, 0)) P) = P.
+Proof. rewrite map_map. cbn [fst]. apply map_id. Qed.
+
+Lemma In_tag wn (P : list Z) : In wn (map (fun w => (w, 0)) P) -> snd wn = 0.
+Proof. intros H. apply in_map_iff in H. destruct H as (w & <- & _). reflexivity. Qed.
+
+Lemma wd_recorded_view fr fr' l :
+  ((MONTHLY <? fr) = false \/ (MONTHLY <? fr') = true \/ (forall wn, In wn l -> snd wn = 0)) ->
+  let plain := map fst (filter (isplain fr) l) in
+  let nth := filter (fun wn => negb (isplain fr wn)) l in
+  let recd := map (fun w => (w, 0)) (sort_set plain) ++ sort_set_pair nth in
+  sort_set (map fst (filter (isplain fr') recd)) = sort_set (map fst (filter (isplain fr') l)) /\
+  sort_set_pair (filter (fun wn => negb (isplain fr' wn)) recd) =
+  sort_set_pair (filter (fun wn => negb (isplain fr' wn)) l).
+Proof.
+  intros G plain nth recd.
+  assert (Hnth : forall wn, In wn (sort_set_pair nth) -> In wn l /\ isplain fr wn = false).
+  { intros wn H0. pose proof (proj1 (In_sort_set_pair _ _) H0) as H. unfold nth in H. apply filter_In in H. destruct H as [H1 H2].
+    split; [exact H1|]. destruct (isplain fr wn); [discriminate | reflexivity]. }
+  destruct (MONTHLY <? fr') eqn:B'.
+  - (* every member is a plain weekday under the new freq *)
+    assert (A1 : forall (m : list (Z * Z)), filter (isplain fr') m = m).
+    { intros m. apply filter_all. intros x _. unfold isplain. rewrite B'. apply orb_true_r. }
+    assert (A2 : forall (m : list (Z * Z)), filter (fun wn => negb (isplain fr' wn)) m = []).
+    { intros m. apply filter_none. intros x _. unfold isplain. rewrite B', orb_true_r. reflexivity. }
+    rewrite !A1, !A2. split; [|reflexivity].
+    apply sorted_ext; try apply sort_set_sorted. intros x. rewrite !In_sort_set.
+    unfold recd. rewrite map_app, map_fst_tag, in_app_iff, In_sort_set. unfold plain.
+    rewrite !in_map_iff. split.
+    + intros [(wn & E & H)|(wn & E & H)].
+      * apply filter_In in H. exists wn. tauto.
+      * apply Hnth in H. exists wn. tauto.
+    + intros (wn & E & H). destruct (isplain fr wn) eqn:I.
+      * left. exists wn. split; [exact E|]. apply filter_In. tauto.
+      * right. exists wn. split; [exact E|]. apply In_sort_set_pair. unfold nth. apply filter_In.
+        rewrite I. tauto.
+  - (* n decides, as at construction *)
+    assert (Iq : forall wn, isplain fr' wn = (snd wn =? 0)).
+    { intros wn. unfold isplain. rewrite B'. apply orb_false_r. }
+    assert (T1 : filter (isplain fr') (map (fun w => (w, 0)) (sort_set plain)) = map (fun w => (w, 0)) (sort_set plain)).
+    { apply filter_all. intros wn H. rewrite Iq, (In_tag _ _ H). reflexivity. }
+    assert (T2 : filter (fun wn => negb (isplain fr' wn)) (map (fun w => (w, 0)) (sort_set plain)) = []).
+    { apply filter_none. intros wn H. rewrite Iq, (In_tag _ _ H). reflexivity. }
+    destruct G as [B|[B|G]]; [|discriminate|].
+    + (* the rule's own freq also went by n *)
+      assert (Ip : forall wn, isplain fr wn = (snd wn =? 0)).
+      { intros wn. unfold isplain. rewrite B. apply orb_false_r. }
+      assert (N1 : filter (isplain fr') (sort_set_pair nth) = []).
+      { apply filter_none. intros wn H. destruct (Hnth _ H) as [_ H2]. rewrite Iq, <- Ip. exact H2. }
+      assert (N2 : filter (fun wn => negb (isplain fr' wn)) (sort_set_pair nth) = sort_set_pair nth).
+      { apply filter_all. intros wn H. destruct (Hnth _ H) as [_ H2]. rewrite Iq, <- Ip, H2. reflexivity. }
+      unfold recd. rewrite !filter_app, T1, T2, N1, N2, app_nil_r, app_nil_l, map_fst_tag.
+      rewrite sort_set_idem, sort_set_pair_idem. unfold plain, nth. split.
+      * f_equal. f_equal. apply filter_ext. intros wn. rewrite Ip, Iq. reflexivity.
+      * f_equal. apply filter_ext. intros wn. rewrite Ip, Iq. reflexivity.
+    + (* no member carries an n *)
+      assert (L1 : filter (isplain fr') l = l).
+      { apply filter_all. intros wn H. rewrite Iq, (G _ H). reflexivity. }
+      assert (L2 : filter (fun wn => negb (isplain fr' wn)) l = []).
+      { apply filter_none. intros wn H. rewrite Iq, (G _ H). reflexivity. }
+      assert (P1 : filter (isplain fr) l = l).
+      { apply filter_all. intros wn H. unfold isplain. rewrite (G _ H). reflexivity. }
+      assert (P2 : nth = []).
+      { unfold nth. apply filter_none. intros wn H. unfold isplain. rewrite (G _ H). reflexivity. }
+      unfold recd. rewrite P2. change (sort_set_pair []) with (@nil (Z * Z)). rewrite app_nil_r, T1, T2, L1, L2.
+      rewrite map_fst_tag, sort_set_idem. unfold plain. rewrite P1. split; reflexivity.
+Qed.
+
+Lemma K_wd r fr' : wd_guard r fr' ->
+  v_wd fr' (from_ent (o_byweekday (record r))) = v_wd fr' (r_byweekday r) /\
+  is_none (from_ent (o_byweekday (record r))) = is_none (r_byweekday r).
+Proof.
+  intros G. unfold wd_guard in G. unfold record. destruct (r_isdate r); cbn [o_byweekday]; fold (nodays r);
+    (destruct (nodays r && (r_freq r =? WEEKLY)) eqn:E;
+     [ apply andb_true_iff in E; destruct E as [E _]; unfold nodays in E;
+       repeat (apply andb_true_iff in E; destruct E as [E ?]);
+       destruct (r_byweekday r); [discriminate | split; reflexivity]
+     | destruct (r_byweekday r) as [l|] eqn:El; [|split; reflexivity];
+       cbn [given from_ent is_none]; split; [|reflexivity];
+       assert (G' : (MONTHLY <? r_freq r) = false \/ (MONTHLY <? fr') = true \/ (forall wn, In wn l -> snd wn = 0))
+         by (destruct G as [G|[G|[G|G]]]; [discriminate | tauto | tauto | right; right; apply (G l eq_refl)]);
+       rewrite split_char; cbv iota beta;
+       destruct (wd_recorded_view (r_freq r) fr' l G') as [H1 H2]; cbv zeta in H1, H2;
+       unfold v_wd; rewrite !split_char; cbv iota beta zeta; rewrite H1, H2; reflexivity ]).
+Qed.
+
+(* ------------------------------------------------------------------------------------------ *)
+(* the constructor cannot tell two argument records apart that it views the same way *)
+
+Lemma normalize2_congr (a b : raw) :
+  r_freq a = r_freq b -> r_interval a = r_interval b -> r_wkst a = r_wkst b -> r_count a = r_count b ->
+  r_until a = r_until b -> r_tzmix a = r_tzmix b -> r_y a = r_y b -> r_m a = r_m b -> r_d a = r_d b ->
+  (if r_isdate a then (0, 0, 0) else (r_H a, r_M a, r_S a)) =
+  (if r_isdate b then (0, 0, 0) else (r_H b, r_M b, r_S b)) ->
+  r_bysetpos a = r_bysetpos b ->
+  is_none (r_byweekno a) = is_none (r_byweekno b) -> is_none (r_byyearday a) = is_none (r_byyearday b) ->
+  is_none (r_bymonthday a) = is_none (r_bymonthday b) -> is_none (r_byweekday a) = is_none (r_byweekday b) ->
+  is_none (r_byeaster a) = is_none (r_byeaster b) -> is_none (r_bymonth a) = is_none (r_bymonth b) ->
+  v_set (r_bymonth a) = v_set (r_bymonth b) -> v_set (r_byyearday a) = v_set (r_byyearday b) ->
+  v_easter (r_byeaster a) = v_easter (r_byeaster b) -> v_set (r_byweekno a) = v_set (r_byweekno b) ->
+  v_md (r_bymonthday a) = v_md (r_bymonthday b) ->
+  v_wd (r_freq b) (r_byweekday a) = v_wd (r_freq b) (r_byweekday b) ->
+  (forall bl lv i s, v_time (r_byhour a) bl lv i s 24 = v_time (r_byhour b) bl lv i s 24) ->
+  (forall bl lv i s, v_time (r_byminute a) bl lv i s 60 = v_time (r_byminute b) bl lv i s 60) ->
+  (forall bl lv i s, v_time (r_bysecond a) bl lv i s 60 = v_time (r_bysecond b) bl lv i s 60) ->
+  normalize2 a = normalize2 b.
+Proof.
+  intros Hf Hi Hw Hc Hu Ht Hy Hm Hd Htr Hsp N1 N2 N3 N4 N5 N6 V1 V2 V3 V4 V5 V6 T1 T2 T3.
+  unfold normalize2. rewrite Hf, Hi, Hw, Hc, Hu, Ht, Hy, Hm, Hd, Htr, Hsp, N1, N2, N3, N4, N5, N6.
+  destruct (if r_isdate b then (0, 0, 0) else (r_H b, r_M b, r_S b)) as [[hh mm] ss].
+  rewrite (ctx_if v_set _ _ V1), V2, V3, V4, (ctx_if v_md _ _ V5), (ctx_if (v_wd (r_freq b)) _ _ V6).
+  rewrite T1, T2, T3. reflexivity.
+Qed.
+
+(* ------------------------------------------------------------------------------------------ *)
+(* replace_only_named *)
+
+(* the guard excludes exactly the open finding F-C12-replace-nth (an occurrence number on a weekday of a
+   rule with freq > MONTHLY, and a new freq <= MONTHLY, byweekday itself not named) and the harmless
+   truthiness corner bysetpos=() (recorded as absent: None instead of (), same occurrences) *)
+Definition replace_guard (r : raw) (u : upd) : Prop :=
+  (u_bysetpos u <> None \/ r_bysetpos r <> Some []) /\
+  (u_byweekday u <> None \/ wd_guard r (ov (u_freq u) (r_freq r))).
+
+Lemma ov_some {A : Type} (u : option A) (a b : A) : u <> None -> ov u a = ov u b.
+Proof. destruct u; [reflexivity | congruence]. Qed.
+
+Lemma record_time r :
+  o_byhour (record r) = given (r_byhour r) sort_set /\ o_byminute (record r) = given (r_byminute r) sort_set /\
+  o_bysecond (record r) = given (r_bysecond r) sort_set.
+Proof. unfold record. destruct (r_isdate r); cbn [o_byhour o_byminute o_bysecond]; repeat split. Qed.
+
+Theorem replace_only_named : forall r u, replace_guard r u -> replace r u = replace_spec r u.
+Proof.
+  intros r u [Gs Gw]. unfold replace, replace_spec, replace_raw. rewrite !normalize2_eq.
+  pose proof (K_month r) as [M1 M2]. pose proof (K_yearday r) as [Y1 Y2].
+  pose proof (K_weekno r) as [W1 W2]. pose proof (K_easter r) as [E1 E2]. pose proof (K_md r) as [D1 D2].
+  assert (HW : v_wd (ov (u_freq u) (r_freq r)) (ov (u_byweekday u) (from_ent (o_byweekday (record r)))) =
+               v_wd (ov (u_freq u) (r_freq r)) (ov (u_byweekday u) (r_byweekday r)) /\
+               is_none (ov (u_byweekday u) (from_ent (o_byweekday (record r)))) =
+               is_none (ov (u_byweekday u) (r_byweekday r))).
+  { destruct (u_byweekday u) as [v|]; [split; reflexivity|]. destruct Gw as [Gw|Gw]; [congruence|].
+    apply K_wd. exact Gw. }
+  assert (HS : ov (u_bysetpos u) (from_ent (o_bysetpos (record r))) = ov (u_bysetpos u) (r_bysetpos r)).
+  { destruct (u_bysetpos u) as [v|]; [reflexivity|]. destruct Gs as [Gs|Gs]; [congruence|].
+    cbn [ov]. apply K_setpos. exact Gs. }
+  assert (HT : forall o bl lv i s base,
+             v_time (ov o (from_ent (given (r_byhour r) sort_set))) bl lv i s base = v_time (ov o (r_byhour r)) bl lv i s base).
+  { intros o bl lv i s base. destruct o; [reflexivity|]. apply K_time. }
+  assert (HT2 : forall o bl lv i s base,
+             v_time (ov o (from_ent (given (r_byminute r) sort_set))) bl lv i s base = v_time (ov o (r_byminute r)) bl lv i s base).
+  { intros o bl lv i s base. destruct o; [reflexivity|]. apply K_time. }
+  assert (HT3 : forall o bl lv i s base,
+             v_time (ov o (from_ent (given (r_bysecond r) sort_set))) bl lv i s base = v_time (ov o (r_bysecond r)) bl lv i s base).
+  { intros o bl lv i s base. destruct o; [reflexivity|]. apply K_time. }
+  destruct HW as [HW1 HW2]. destruct (record_time r) as (Rh & Rm & Rs).
+  unfold apply_upd, rebuild. rewrite Rh, Rm, Rs.
+  destruct (r_isdate r) eqn:Ei;
+  destruct (u_dtstart u) as [[[isd [[y m] d]] [[hh mm] ss]]|]; cbn [ov];
+    (apply normalize2_congr; cbn [r_freq r_interval r_wkst r_count r_until r_tzmix r_y r_m r_d r_isdate r_H r_M r_S
+                                   r_bysetpos r_bymonth r_bymonthday r_byyearday r_byeaster r_byweekno r_byweekday
+                                   r_byhour r_byminute r_bysecond];
+     try reflexivity; try assumption;
+     try (apply (ov_congr is_none); assumption);
+     try (apply (ov_congr v_set); assumption);
+     try (apply (ov_congr v_easter); assumption);
+     try (apply (ov_congr v_md); assumption);
+     try (intros; apply HT); try (intros; apply HT2); try (intros; apply HT3)).
+Qed.
+
+(* ---- the guard is needed, and it is satisfiable: F-C12-replace-nth as a witness, and a YEARLY rule with
+   an explicit bymonth whose dtstart-derived day follows the new dtstart (the class of seeded change C12-2) *)
+
+Definition mk_raw0 (fr : Z) (bymonth : option (list Z)) (byweekday : option (list (Z * Z))) : raw :=
+  mkRaw fr false 1997 9 2 9 0 0 1 0 (Some 3) None false None bymonth None None None None byweekday None None None.
+
+Definition upd0 : upd :=
+  mkUpd None None None None None None None None None None None None None None None None None.
+
+Definition upd_freq (f : Z) : upd :=
+  mkUpd (Some f) None None None None None None None None None None None None None None None None.
+
+Definition upd_dtstart (y m d : Z) : upd :=
+  mkUpd None (Some (false, (y, m, d), (9, 0, 0))) None None None None None None None None None None None None None None None.
+
+Lemma replace_nth_refuted :
+  replace (mk_raw0 WEEKLY None (Some [(0, 1)])) (upd_freq MONTHLY) <>
+  replace_spec (mk_raw0 WEEKLY None (Some [(0, 1)])) (upd_freq MONTHLY).
+Proof. vm_compute. discriminate. Qed.
+
+Example replace_guard_example :
+  replace_guard (mk_raw0 YEARLY (Some [1; 3]) None) (upd_dtstart 1997 9 15) /\
+  replace (mk_raw0 YEARLY (Some [1; 3]) None) (upd_dtstart 1997 9 15) =
+  replace_spec (mk_raw0 YEARLY (Some [1; 3]) None) (upd_dtstart 1997 9 15) /\
+  (exists ru, replace (mk_raw0 YEARLY (Some [1; 3]) None) (upd_dtstart 1997 9 15) = Ok ru /\ bymonthday ru = [15]).
+Proof.
+  split; [|split].
+  - split; [right; discriminate | right; left; reflexivity].
+  - reflexivity.
+  - eexists. split; [vm_compute; reflexivity | reflexivity].
 Qed.
